@@ -191,6 +191,11 @@ def run(rep, tier, seed):
         why = judge_real(exp, kind, want, want2, got, l["ann"] != "none")
         if why:
             ftype = "/wrong-kind" if why.startswith("kind ") else "/wrong-value"
+            # a value within a few units in the last place of the denoted number is a ROUNDING defect (e.g. scientific
+            # literals are computed as mantissa * 10f64.powf(exp)); anything further away is a different, grosser failure
+            if ftype == "/wrong-value" and got[0] == 'num' and got[1] in ("f32", "f64") and want != 0 and exp in ("exact", "nearest"):
+                rel = abs(got[2] - want) / abs(want)
+                if rel < (Fraction(1, 2 ** 20) if got[1] == "f32" else Fraction(1, 2 ** 44)): ftype = "/misrounded"
             rep.fail(sig + ftype, f"`{text}`: {why}; the spelling denotes {want if exp in ('exact', 'nearest') else str(cs['re']['n']) + '/' + str(cs['re']['d'])} ({exp} in {kind})", replay)
         else:
             tally[{"exact": "exact_ok", "nearest": "nearest_ok", "clamp": "clamp_ok", "nearint": "nearint_ok"}[exp]] += 1
